@@ -150,12 +150,12 @@ impl Journal {
             let header = format!("{:010}\n", body.len());
             self.buf.extend_from_slice(header.as_bytes());
             self.buf.extend_from_slice(body.as_bytes());
-            let _ = f.write_at(&self.buf, 0);
+            let _ = f.write_all_at(&self.buf, 0); // write_at may write short (Miri does so on purpose)
         }
     }
     pub fn done(&mut self) {
         if let Some(f) = &self.file {
-            let _ = f.write_at(b"0000000000\n", 0);
+            let _ = f.write_all_at(b"0000000000\n", 0);
         }
     }
 }
